@@ -30,6 +30,8 @@ pub struct GenCfg {
 }
 
 struct G<'a> {
+  /// optional-output profile: (writer, its resource, a reader, a source resource, the reader's output checker)
+  optwrite: Option<(i64, i64, i64, i64, String)>,
   /// resources of the library's own map resource type only admit the library's equality checker
   maponly: BTreeSet<i64>,
   rng: &'a mut StdRng,
@@ -176,6 +178,23 @@ impl<'a> G<'a> {
 
   fn gen_task(&mut self, t: i64, chain: bool) -> Vec<Vec<Op>> {
     let mut table: Vec<Vec<Option<Op>>> = vec![vec![None; self.na as usize]; self.len + 1];
+    if let Some((w, r, rdr, src, chk)) = self.optwrite.clone() {
+      // optional-output profile: generator w writes its resource r only for some values of a source and keeps a
+      // constant output; reader rdr requires w and reads r ("a plain resource becomes generated" and back)
+      if t == w && self.len >= 2 {
+        let c1 = self.rng.gen_range(0..self.nv);
+        for a in 0..self.na as usize {
+          table[0][a] = Some(Op::rd(src, "eq"));
+          table[1][a] = Some(if self.rng.gen_bool(0.5) { Op::wr(r, "eq", self.rng.gen_range(0..self.nv)) } else { Op::ret(c1) });
+          table[2][a] = Some(Op::ret(c1));
+        }
+      } else if t == rdr && self.len >= 2 {
+        for a in 0..self.na as usize {
+          table[0][a] = Some(Op::rq(w, &chk));
+          table[1][a] = Some(Op::rd(r, "eq"));
+        }
+      }
+    }
     if chain {
       // deep-chain profile: task t requires t+1 first (task 1 only for some observed values of a source: a require
       // that appears dynamically), then reads a source; entries that are not well-formed are repaired below as usual
@@ -280,7 +299,18 @@ pub fn generate(seed: u64, index: usize, cfg: &GenCfg) -> Scenario {
     let mut v: Vec<&'static str> = OCHK.to_vec(); v.shuffle(&mut rng); v.truncate(rng.gen_range(2..=6)); v
   };
   let maponly: BTreeSet<i64> = (0..nr).filter(|i| rtype[*i] == 2).map(|i| (i + 1) as i64).collect();
-  let mut g = G { maponly, rng: &mut rng, nt, nr, nv, na, len, writer: writer.clone(), rchk, ochk, nowrite, min_req, free,
+  let optwrite = {
+    let gens: Vec<usize> = (0..nr).filter(|r| writer[*r] > 1).collect();
+    let srcs: Vec<usize> = (0..nr).filter(|r| writer[*r] == 0).collect();
+    if !free && !ident && !gens.is_empty() && !srcs.is_empty() && rng.gen_bool(0.3) {
+      let r = *gens.choose(&mut rng).unwrap();
+      let w = writer[r];
+      let rdr = rng.gen_range(1..w);
+      let chk = if exact { "eq" } else { ["any", "eq", "res"][rng.gen_range(0..3)] };
+      Some((w, (r + 1) as i64, rdr, (*srcs.choose(&mut rng).unwrap() + 1) as i64, chk.to_string()))
+    } else { None }
+  };
+  let mut g = G { optwrite, maponly, rng: &mut rng, nt, nr, nv, na, len, writer: writer.clone(), rchk, ochk, nowrite, min_req, free,
                   one_chk: fam != "TWOCHK" };
   let mut prog: Vec<Vec<Vec<Op>>> = Vec::new();
   let flip = free && g.rng.gen_bool(0.6);
